@@ -114,6 +114,18 @@ def _opaque_pool() -> list:
 
 
 OPAQUE = _opaque_pool()
+
+
+def extra_pool() -> list:
+  """Values the statement names that are checked one by one (not part of the abstract grammar)."""
+  plain_eq = lambda a, b: type(a) is type(b) and a == b
+  sym_eq = lambda a, b: type(a) is type(b) and pg.eq(a, b)
+  return [
+      ('enum_without_default', pg.typing.Enum(pg.MISSING_VALUE, [1, 2]), plain_eq),
+      ('typed_list', pg.List([1, 2], value_spec=pg.typing.List(pg.typing.Int(min_value=0), max_size=3)), sym_eq),
+      ('typed_dict', pg.Dict({'k': 1}, value_spec=pg.typing.Dict([('k', pg.typing.Int())])), sym_eq),
+      ('object_with_typed_fields', Typed(items=[1], opts=dict(k=1, s=None), t=None), sym_eq),
+  ]
 UNKNOWN_LEAF = 999
 
 
@@ -202,6 +214,21 @@ def has_nan(x) -> bool:
   return False
 
 
+def holds_identity_hashed_in_tuple(x, in_tuple=False) -> bool:
+  """A tuple (hashed by Python's hash) that contains a symbolic object whose __hash__ is identity based."""
+  if isinstance(x, tuple):
+    return any(holds_identity_hashed_in_tuple(y, True) for y in x)
+  if isinstance(x, pg.Object):
+    if in_tuple and not type(x).use_symbolic_comparison:
+      return True
+    return any(holds_identity_hashed_in_tuple(y, in_tuple) for _, y in x.sym_items())
+  if isinstance(x, list):
+    return any(holds_identity_hashed_in_tuple(y, in_tuple) for y in x)
+  if isinstance(x, dict):
+    return any(holds_identity_hashed_in_tuple(y, in_tuple) for y in (x.sym_values() if isinstance(x, pg.Dict) else x.values()))
+  return False
+
+
 def tree_ok(x, _seen=None) -> bool:
   """Every symbolic child knows its parent and its own path (C01's well-formedness, on the result)."""
   if isinstance(x, tuple):
@@ -240,6 +267,8 @@ def same_behaviour(orig, back) -> bool:
           out.append(type(e).__name__)
       return out
     return isinstance(back, Typed) and probe2(orig) == probe2(back)
+  if isinstance(orig, (pg.List, pg.Dict)) and orig.value_spec is not None:
+    return getattr(back, 'value_spec', None) == orig.value_spec
   return True
 
 
@@ -255,7 +284,7 @@ def observe(v: dict, vi: int, c: int, way: str) -> dict:
   conc = Conc(c, vi)
   orig = conc.build(v)
   row = {'i': vi, 'v': v, 'way': way, 'conc': c, 'ok': False, 'back': {'t': 'err', 'a': 0, 'ks': [], 'xs': []},
-         'eq': False, 'type': False, 'hash': False, 'tree': False, 'err': ''}
+         'eq': False, 'type': False, 'hash': False, 'tree': False, 'err': '', 'hashwhy': 'hash'}
   try:
     back = WAYS[way](orig)
   except Exception as e:  # pylint: disable=broad-except
@@ -272,6 +301,8 @@ def observe(v: dict, vi: int, c: int, way: str) -> dict:
   except Exception:  # pylint: disable=broad-except
     h = None             # pg.hash is not defined for this value: don't-care
   row['hash'] = True if (h is None or nan) else _safe(lambda: pg.hash(back) == h)
+  if not row['hash'] and holds_identity_hashed_in_tuple(orig):
+    row['hashwhy'] = 'hash:tuple_of_identity_hashed_object'
   row['tree'] = tree_ok(back)
   if way in ('pickle', 'deepcopy') and isinstance(orig, pg.Symbolic):
     row['tree'] = row['tree'] and back is not orig
